@@ -27,5 +27,13 @@ s = re.sub(r'<!-- FIXES:BEGIN -->.*?<!-- FIXES:END -->', '<!-- FIXES:BEGIN -->\n
 # ---- seeded
 tbl = subprocess.run(['/verif/tools/gen_seeded_table.py'], capture_output=True, text=True).stdout
 s = re.sub(r'<!-- SEEDED:BEGIN -->.*?<!-- SEEDED:END -->', '<!-- SEEDED:BEGIN -->\n' + tbl.replace('\\', '\\\\') + '<!-- SEEDED:END -->', s, flags=re.S)
+# ---- thorough evidence
+import glob, os
+rows = ["| id | evaluations | distinct non-trivial | stages | wall s | violations |", "|---|---|---|---|---|---|"]
+for f in sorted(glob.glob('/verif/evidence/thorough/C*.json')):
+    j = json.load(open(f))
+    c = j['coverage']
+    rows.append(f"| {j['property_id']} | {c['evaluations']:,} | {c['distinct_nontrivial']:,} | {', '.join(c.get('driver', {}).get('stages', []))} | {round(j['wall_s'])} | {j.get('violations', 0)} |")
+s = re.sub(r'<!-- THOROUGH:BEGIN -->.*?<!-- THOROUGH:END -->', '<!-- THOROUGH:BEGIN -->\n' + "\n".join(rows) + '\n<!-- THOROUGH:END -->', s, flags=re.S)
 open(P, 'w').write(s)
 print('fixes', len(fixes))
